@@ -21,7 +21,11 @@ def iso_probe():
 def rx_selftest():
     from pyvc import rx
     from schwifty import bic
-    return rx.selftest([bic._bic_iso9362_re, bic._bic_swift_re], per_pattern=300)
+    import re
+    # the module-level patterns the library happens to have (their names are not part of any contract)
+    pats = [v for k, v in sorted(vars(bic).items()) if isinstance(v, re.Pattern)]
+    pats = pats or [re.compile(r"[A-Z0-9]{4}[A-Z]{2}[A-Z0-9]{2}(?:[A-Z0-9]{3})?", re.ASCII)]
+    return rx.selftest(pats, per_pattern=300)
 
 
 def main(seed, tier):
